@@ -242,11 +242,13 @@ class C13:
         for k, ev in enumerate(events, start=1):
             where = ev[0]
             plans = [dict(k=k, mode="kill")] if where != "open-read" else []
+            if where == "open-write":
+                plans.append(dict(k=k, mode="kill-after-open"))
             plans += [dict(k=k, mode="fail", err=e) for e in ERRS]
             if where == "write":
                 plans += [dict(k=k, mode="partial", prefix=p) for p in PREFIXES]
             for plan in plans:
-                fault = {"k": k, "where": where, "target": ev[1], "mode": plan["mode"] + ("-" + plan.get("err", plan.get("prefix", "")) if plan["mode"] != "kill" else "")}
+                fault = {"k": k, "where": where, "target": ev[1], "mode": plan["mode"] + ("-" + plan.get("err", plan.get("prefix", "")) if plan["mode"] in ("fail", "partial") else "")}
                 if only and (only["k"], only["mode"]) != (fault["k"], fault["mode"]):
                     continue
                 self.restore()
@@ -257,9 +259,9 @@ class C13:
                     continue
                 if fired:
                     rec.count("faults_fired")
-                    rec.count({"kill": "kill_points", "fail": "failing_calls", "partial": "partial_writes"}[plan["mode"]])
+                    rec.count({"kill": "kill_points", "kill-after-open": "kill_points", "fail": "failing_calls", "partial": "partial_writes"}[plan["mode"]])
                 post = self.snapshot()
-                self.judge(op, pre, new, post, rec, dict(case, only=fault), dict(fault, mode=fault["mode"].split("-")[0] + ("" if plan["mode"] != "fail" else "")))
+                self.judge(op, pre, new, post, rec, dict(case, only=fault), dict(fault, mode=plan["mode"]))
 
     # ------------------------------------------------------------------ SQLite via strace
     def run_sqlite(self, case, rec):
